@@ -111,6 +111,7 @@ func (e *eng) correspondence() {
 	e.corrSound(r)
 	e.corrFlat(r)
 	e.corrGeom(r)
+	e.corrBoot(r)
 }
 
 // ---- table codecs
